@@ -4,6 +4,6 @@ set -e
 cd "$(dirname "$0")"
 export CARGO_NET_OFFLINE=true
 mkdir -p work evidence replays
-( cd coq && coq_makefile -f _CoqProject -o Makefile >/dev/null && timeout 3000 make -j16 >../work/coq-build.log 2>&1 ) || { tail -30 work/coq-build.log; exit 1; }
-( cd harness && timeout 3000 cargo build --offline >../work/cargo-build.log 2>&1 ) || { tail -30 work/cargo-build.log; exit 1; }
+( cd coq && ./mkproject.sh && coq_makefile -f _CoqProject -o Makefile >/dev/null && timeout 3000 make -j16 >../work/coq-build.log 2>&1 ) || { tail -30 work/coq-build.log; exit 1; }
+( cd harness && timeout 3000 cargo build --offline --bins >../work/cargo-build.log 2>&1 ) || { tail -30 work/cargo-build.log; exit 1; }
 echo setup ok
